@@ -44,6 +44,13 @@ func c10classes() []c10class {
 		}, nil, true},
 		{"yaml-error", func() []File { return []File{{"c.yaml", "services: [unclosed\n"}} }, nil, false},
 		{"shape-error", func() []File { return []File{{"c.yaml", "services:\n  a:\n    constructor: New\n    calls: [[]]\n"}} }, nil, false},
+		{"yaml-type-error", func() []File { return []File{{"c.yaml", "parameters: []\nservices: 5\n"}} }, nil, false},
+		{"yaml-type-errors-nested", func() []File {
+			return []File{{"c.yaml", "meta:\n  imports: [a]\nservices:\n  a:\n    constructor: [1]\n    arguments: 5\n    tags: {x: 1}\n"}}
+		}, nil, false},
+		{"yaml-type-error-second-file", func() []File {
+			return []File{{"a.yaml", c10valid().YAML()}, {"b.yaml", "decorators: {a: 1}\nparameters: 7\n"}}
+		}, nil, false},
 		{"grammar-error", mod(func(c *Cfg) { c.Services[0].Getter = P("1bad") }), nil, false},
 		{"two-grammar-errors", mod(func(c *Cfg) {
 			c.Services[0].Getter = P("1bad")
@@ -213,7 +220,7 @@ func init() {
 	Register(&Check{
 		ID:    "C10",
 		Level: "fault_enumeration",
-		Rule: "20 configuration / environment classes (valid, two files, YAML error, shape error, grammar error(s), token errors, formatter error, missing parameter / service, cycle, scope, mixed output errors, version mismatch, file matched twice (same spelling, ./ prefix, dirty path, glob + dirty path), missing input, only missing input, empty glob, invalid glob, input is a directory) x all 16 flag combinations (quiet, stub, ignore-missing-params, ignore-missing-services) x 5 output pre-states (absent, existing file with old mtime and 0600, directory, missing parent, same path as an input) " +
+		Rule: "26 configuration / environment classes (valid, two files, YAML syntax error, YAML type errors whose message spans several lines (one file, nested, second file), shape error, grammar error(s), token errors, formatter error, missing parameter / service, cycle, scope, mixed output errors, version mismatch, file matched twice (same spelling, ./ prefix, dirty path, glob + dirty path), missing input, only missing input, empty glob, invalid glob, input is a directory) x all 16 flag combinations (quiet, stub, ignore-missing-params, ignore-missing-services) x 5 output pre-states (absent, existing file with old mtime and 0600, directory, missing parent, same path as an input) " +
 			"x injected file-system answers at every os.ReadFile / os.WriteFile / filepath.Glob call of internal/cmd/runner (EACCES, EIO, ErrBadPattern): all executions with <= 1 injected answer (quick) / <= 2 (thorough); plus the real binary's exit status for one representative of every class. non-trivial = a failure class, a non-absent pre-state or an injected fault; distinct = distinct (class, flags, pre-state, fault plan)",
 		Assumptions: []string{
 			"file-system answers are injected with go build -overlay (os.ReadFile, os.WriteFile, filepath.Glob in internal/cmd/runner rewritten to a shim); a write that fails after truncation is outside the statement's fault list and not injected",
